@@ -29,3 +29,25 @@ def lambdas_lo_hi(t):
 
 
 RULES = dict(mul128=mul128, lambdas_lo_hi=lambdas_lo_hi)
+
+
+def hoist_partial_products(t):
+    """R24: each `lo|hi(a) * lo|hi(b)` partial product of Multiply becomes a free ghost input
+    named by its operand shape (first letter = half of a, second = half of b); commutative."""
+    n = 0
+    def repl(m):
+        nonlocal n
+        h1, v1, h2, v2 = m.group(1), m.group(2), m.group(3), m.group(4)
+        if v1 == v2:
+            return m.group(0)
+        if (v1, v2) == ('b', 'a'):
+            h1, h2 = h2, h1
+        elif (v1, v2) != ('a', 'b'):
+            return m.group(0)
+        n += 1
+        return 'g_pp_%s%s' % (h1[0], h2[0])
+    t = re.sub(r'\b(lo|hi)\((\w+)\)\s*\*\s*(lo|hi)\((\w+)\)', repl, t)
+    return t, n
+
+
+RULES['hoist_partial_products'] = hoist_partial_products
